@@ -1301,7 +1301,7 @@ impl World {
                 self.stats.probe("rejoin-new-device-same-signature-key");
             }
             std::mem::swap(&mut np.mems, &mut self.parties[q].mems);
-            *np.pskstore.map.lock().unwrap() = self.parties[q].pskstore.map.lock().unwrap().clone();
+            np.pskstore.copy_from(&self.parties[q].pskstore);
             // keep removed objects of the old device alive inside mems (C02)
             self.parties[q] = np;
             self.mem(q, g).status = Status::Never;
@@ -2585,7 +2585,7 @@ impl World {
             let gen = self.parties[p].generation + 1;
             let mut np = self.make_party(p, gen)?;
             std::mem::swap(&mut np.mems, &mut self.parties[p].mems);
-            *np.pskstore.map.lock().unwrap() = self.parties[p].pskstore.map.lock().unwrap().clone();
+            np.pskstore.copy_from(&self.parties[p].pskstore);
             np.crashed = self.parties[p].crashed;
             self.parties[p] = np;
             self.mem(p, g).durable = Default::default();
